@@ -40,7 +40,15 @@ type Env struct {
 	home   string
 	Height int64
 	Time   time.Time
+	// ghost transactions (see Run): messages seen so far, a counter-driven generator, statistics
+	seen    []sdk.Msg
+	ghostN  uint64
+	Ghosts  int
+	NoGhost bool
 }
+
+// GhostStats accumulates, over all environments of a run, how many ghost executions took place.
+var GhostStats = map[string]int{}
 
 var T0 = time.Unix(1700000000, 0).UTC()
 
@@ -121,6 +129,15 @@ type MsgResult struct {
 
 // Run executes one message the way baseapp.runTx/runMsgs does: ValidateBasic, route,
 // handler on a cache context, recover panics, write the cache only on success.
+//
+// Ghost transactions.  A node also executes messages whose effects never reach the state: gas simulation
+// (BaseApp.Simulate, which does not even check signatures), CheckTx, and the earlier messages of a transaction whose
+// later message fails.  All of them run on a branch of the store that is dropped.  Before roughly every third
+// message, Run therefore executes one such ghost — the message itself (a wallet simulating before it broadcasts)
+// or one of the last messages of this history (anybody may have a node simulate anything) — on a cache context that
+// is discarded.  On a tree whose state lives in the store this changes nothing; state kept in the keeper's memory
+// (memoised getters, "per-block" caches) leaks from the ghost into the real execution, and the property's own
+// monitors and the correspondence see the difference.
 func (e *Env) Run(msg sdk.Msg) (r MsgResult) {
 	if verr := msg.ValidateBasic(); verr != nil {
 		return MsgResult{Out: OutFail, Err: "validatebasic: " + verr.Error()}
@@ -128,6 +145,29 @@ func (e *Env) Run(msg sdk.Msg) (r MsgResult) {
 	h := e.App.MsgServiceRouter().Handler(msg)
 	if h == nil {
 		return MsgResult{Out: OutFail, Err: "no handler"}
+	}
+	if !e.NoGhost {
+		e.ghostN = e.ghostN*6364136223846793005 + 1442695040888963407
+		pick := (e.ghostN >> 33) % 6
+		var g sdk.Msg
+		switch {
+		case pick == 0:
+			g = msg
+		case pick == 1 && len(e.seen) > 0:
+			g = e.seen[int((e.ghostN>>40)%uint64(len(e.seen)))]
+		}
+		if g != nil {
+			if gh := e.App.MsgServiceRouter().Handler(g); gh != nil {
+				gctx, _ := e.Ctx.CacheContext() // never written
+				_ = Guard(func() { _, _ = gh(gctx, g) })
+				e.Ghosts++
+				GhostStats["ghost executions"]++
+			}
+		}
+		e.seen = append(e.seen, msg)
+		if len(e.seen) > 12 {
+			e.seen = e.seen[len(e.seen)-12:]
+		}
 	}
 	cctx, write := e.Ctx.CacheContext()
 	defer func() {
